@@ -178,6 +178,9 @@ def check_partitioner(case, ctx):
         where = f"op {k} {kind}"
         if kind in ("fill", "refill_build"):
             pts = data if kind == "refill_build" else np.array(op["data"], dtype=float).reshape(-1, data.shape[1])
+            if op.get("tile", 1) > 1 and len(pts):
+                pts = np.tile(pts, (op["tile"], 1))  # thousands of points from a small drawn block
+                ctx.label("large-fill" if len(pts) > 4096 else "tiled-fill")
             tid = op["id"]
             existed = tid in mirror.counts
             with sut(part="fill"):
@@ -312,7 +315,7 @@ def strat_partitioner(tier):
         for _ in range(nops):
             kind = draw(st.sampled_from(["fill", "fill", "fill", "fill", "refill_build", "reset", "kl", "plot"]))
             if kind == "fill":
-                ops.append({"op": "fill", "data": draw(points(d, flavour, 0, 40, wide=True)), "id": draw(st.sampled_from(["a", "a", "b", "test", "build"])), "reset": draw(st.sampled_from([False, False, True]))})
+                ops.append({"op": "fill", "data": draw(points(d, flavour, 0, 40, wide=True)), "id": draw(st.sampled_from(["a", "a", "b", "test", "build"])), "reset": draw(st.sampled_from([False, False, True])), "tile": draw(st.sampled_from([1] * 12 + [30, 130, 260]))})
             elif kind == "refill_build":
                 ops.append({"op": "refill_build", "id": draw(st.sampled_from(IDS[1:])), "reset": draw(st.booleans())})
             elif kind == "reset":
